@@ -104,6 +104,26 @@ pub struct Scenario {
 
 pub struct C13;
 
+/// Let go of a stream: as a whole (0), as owned halves of which the write half is `forget`-ed (no shutdown on
+/// its own) and the read half dropped (1), or after into_split + reunite (2).
+fn drop_stream(s: TcpStream, flavour: usize) {
+    match flavour {
+        1 => {
+            let (r, w) = s.into_split();
+            w.forget();
+            drop(r);
+        }
+        2 => {
+            let (r, w) = s.into_split();
+            match r.reunite(w) {
+                Ok(s) => drop(s),
+                Err(e) => drop(e),
+            }
+        }
+        _ => drop(s),
+    }
+}
+
 pub const KF_O8: &str = "synreceived-child-never-reaped";
 pub const KF_FW2: &str = "orphan-finwait2-after-lost-rst";
 pub const KF_O7C: &str = "lost-handshake-ack-not-recovered";
@@ -358,14 +378,18 @@ impl<'a> Sim<'a> {
         if client {
             if let Some(s) = self.cs[c].client.take() {
                 self.peer_state_probe(c, true, what);
-                self.d.on(from, || drop(s));
+                // three ways to let go of the same stream object, none of which keeps anything
+                let flavour = (c + self.round as usize) % 3;
+                self.d.on(from, || drop_stream(s, flavour));
+                self.rep.probes.inc(["client_dropped_whole", "client_dropped_as_forgotten_write_half_then_read_half", "client_dropped_after_split_and_reunite"][flavour]);
                 self.cs[c].client_closed = true;
                 self.log.ev(format!("r{} c{c}: client dropped", self.round));
                 self.log.tag("cdrop");
             }
         } else if let Some(s) = self.cs[c].server.take() {
             self.peer_state_probe(c, false, what);
-            self.d.on(0, || drop(s));
+            let flavour = (c + 1 + self.round as usize) % 3;
+            self.d.on(0, || drop_stream(s, flavour));
             self.cs[c].server_closed = true;
             self.log.ev(format!("r{} c{c}: accepted end dropped", self.round));
             self.log.tag("sdrop");
